@@ -14,7 +14,7 @@ from fractions import Fraction
 PROP = "C09"
 META = {
  "engine": "P-pattern-algebra",
- "text": "Coq theorems (Props/C09.v, closed under the global context) prove on the executable model of the pattern classes (Pat/Step.v, transcribed from core.py / sequence.py / scalar.py): once a pattern of the sticky fragment fpat (constants, sequences of scalars, series, ranges, geometric series, reverse, ping-pong with scalar terminating parameters; the 15 operators, &, abs, int, skip-if, references, stutter, counter, pad, pad-to-multiple, collapse, no-repeats, changed, diff, round, wrap, loop, subsequence, index-of, dict-key, array-index, concatenate over them, nested to any depth; closed under next(): C09_fragment_closed) has raised StopIteration, no later next() yields a value (C09_sticky, C09_sticky_transformers: per-class invariants, induction on the nesting; still open, C09_sticky_remaining_classes_partial: PDict, PArrayIndex over a literal list and pattern items, covered by the correspondence and the oracle only); nextn(n) is the list of the first min(n, remaining) results of repeated next and leaves the object where those calls leave it, all(m) likewise followed by reset(), len is the length of all(); copy() is the identity on the tree model, so a copy continues with exactly the outputs of the original; for pattern GRAPHS with shared sub-pattern objects (Pat/Dag.v: heap of cells, operator expressions and PDict roots over addresses, copy = deepcopy with one memo) every script of next/nextn/copy on any number of handles observes what the original alone produces at the handle's position - continuation and independence for all DAGs (C09_dag_copy_interleavings), tied to the repository by generated DAG programs with copy-heavy scripts, judged against a fresh build and compared with the model inside Coq. The model is tied to the repository on every run by scripts interleaving next/nextn/all/len/for/copy on up to four handles, compared inside Coq; an implementation-only oracle checks stickiness, helper results against repeated next() of a fresh instance, and independence of copies. For 'a drained track stays drained' Pat/Drained.v models Timeline.tick/Track.tick for a note track over any stream (in particular the stochastic machines of Pat/Chance.v, generator as data): once the stream is dead the re-polling track plays nothing more and finishes when its last note-off is due (C09_drained_track_stays_drained); PShuffle and PWhite are sticky in any state for any generator (C09_pshuffle_sticky, C09_pwhite_sticky); tied to the code by comparing, inside Coq, ticks-until-removal and notes of real tracks with gate > 1 and the StopIteration shape of PShuffle/PWhite. A library stream (oracle only) runs every Pattern subclass of isobar.pattern (list read from the live package, fail closed; seeded stochastic classes, nestings over them) through >= 6 polls after the first StopIteration, helper/copy scripts around and after the end, and a Track whose last note outlasts the stream.",
+ "text": "Coq theorems (Props/C09.v, closed under the global context) prove on the executable model of the pattern classes (Pat/Step.v, transcribed from core.py / sequence.py / scalar.py): once a pattern of the sticky fragment fpat (constants, sequences of scalars, series, ranges, geometric series, reverse, ping-pong with scalar terminating parameters; the 15 operators, &, abs, int, skip-if, references, stutter, counter, pad, pad-to-multiple, collapse, no-repeats, changed, diff, round, wrap, loop, subsequence, index-of, dict-key, array-index, concatenate over them, nested to any depth; closed under next(): C09_fragment_closed) has raised StopIteration, no later next() yields a value (C09_sticky, C09_sticky_transformers: per-class invariants, induction on the nesting; still open, C09_sticky_remaining_classes_partial: PDict, PArrayIndex over a literal list and pattern items, covered by the correspondence and the oracle only); nextn(n) is the list of the first min(n, remaining) results of repeated next and leaves the object where those calls leave it, all(m) likewise followed by reset(), len is the length of all(); copy() is the identity on the tree model, so a copy continues with exactly the outputs of the original; for pattern GRAPHS with shared sub-pattern objects (Pat/Dag.v: heap of cells, operator expressions and PDict roots over addresses, copy = deepcopy with one memo) every script of next/nextn/copy on any number of handles observes what the original alone produces at the handle's position - continuation and independence for all DAGs (C09_dag_copy_interleavings), tied to the repository by generated DAG programs with copy-heavy scripts, judged against a fresh build and compared with the model inside Coq; several instances of one class and their copies alive together, each rewound at different moments (Pat/Instances.v, generic over objects whose methods are functions of the object alone; Pat/LSystem.v for PLSystem, whose bracket stack is per-object state): every object observes what it observes alone (C09_instances_independent, C09_instances_copy, C09_lsystem_instances_independent, C09_lsystem_sticky), tied to the repository by the instances stream (PLSystem with bracketed rules, engine-P expressions, seeded stochastic patterns; positions per handle, a rewind puts that handle back to 0 and no other). The model is tied to the repository on every run by scripts interleaving next/nextn/all/len/for/copy on up to four handles, compared inside Coq; an implementation-only oracle checks stickiness, helper results against repeated next() of a fresh instance, and independence of copies. For 'a drained track stays drained' Pat/Drained.v models Timeline.tick/Track.tick for a note track over any stream (in particular the stochastic machines of Pat/Chance.v, generator as data): once the stream is dead the re-polling track plays nothing more and finishes when its last note-off is due (C09_drained_track_stays_drained); PShuffle and PWhite are sticky in any state for any generator (C09_pshuffle_sticky, C09_pwhite_sticky); tied to the code by comparing, inside Coq, ticks-until-removal and notes of real tracks with gate > 1 and the StopIteration shape of PShuffle/PWhite. A library stream (oracle only) runs every Pattern subclass of isobar.pattern (list read from the live package, fail closed; seeded stochastic classes, nestings over them) through >= 6 polls after the first StopIteration, helper/copy scripts around and after the end, and a Track whose last note outlasts the stream.",
  "note": "Trusted: Coq kernel + VM; the harness; copy.deepcopy itself (modelled as copy_root: one memo, every reachable cell copied once; the correspondence with interleavings validates it against the implementation). Sharing below classes other than the operators and PDict (PSequence items, PConcatenate inputs, PStutter count ...) is judged by the oracle only; stickiness and reset() of graphs are not judged. Revival by design is excluded from the stickiness oracle and theorems: PReset (re-arms its input), terminating parameters given as varying patterns (re-read at every step, C12), PArrayIndex over a list containing patterns. Classes outside the model (PPermut, PArpeggiator, stochastic, PFade*, tonal, PMap* ...) are judged by the oracle only (library stream); classes drawing from the process-wide random module (PExplorer, PFadeNotewiseRandom, PLSystem '?') for stickiness and track end only; PStaticPattern, PW*, PLFO, PMIDIControl, PMonomeArcControl are excluded (need a running timeline / hardware). The drained-track model covers constant duration and gate on the quarter-tick grid. Known findings: PFadeNotewise/PFadeNotewiseRandom revive, PPatternGeneratorAction raises TypeError after its StopIteration.",
 }
 
@@ -425,7 +425,9 @@ def lib_judge(case, out):
             elif reproducible and played != vals:
                 sig, doc["expected"] = "track-values", "the track plays %r (repeated next() of a fresh instance)" % [from_json(v) for v in vals]
                 doc["observed"] = "%r" % [from_json(v) for v in played]
-            elif not t["ended"]:
+            elif not t["ended"] and (reproducible or len(played) <= n):
+                # (a pattern that draws from the process-wide generator takes another number of values in the track than in
+                # the reference run its tick budget was computed from: only judged when it took no more than those)
                 sig, doc["expected"] = "track-never-ends", "the drained track leaves Timeline.tracks once its last note has ended"
                 doc["observed"] = "still scheduled after %d ticks (%d note_on, %d note_off)" % (t["ticks"], len(t["ons"]), len(t["offs"]))
             elif len(t["ons"]) != len(t["offs"]):
@@ -460,7 +462,7 @@ def lib_classes(run):
 
 def run_lib(run, cases, shards=12):
     parts = [cases[i::shards] for i in range(shards) if cases[i::shards]]
-    payloads = [{"cases": [{"src": c["src"], "refn": LIB_REFN, "script": c.get("script"), "track": c.get("track")} for c in part]} for part in parts]
+    payloads = [{"cases": [{"src": c["src"], "refn": c.get("refn", LIB_REFN), "script": c.get("script"), "track": c.get("track")} for c in part]} for part in parts]
     outs = run.impl_parallel("c09_impl", payloads)
     res = {}
     for part, out in zip(parts, outs):
@@ -784,6 +786,222 @@ def check_dags(run, gen):
                 "python": lib_snippet(c["src"], [tuple(o) for o in c["script"]])}, found_input=False)
 
 
+# ==========================================================================================================
+# Instances stream: SEVERAL INSTANCES of one class built from the same source (equal arguments) and their copies,
+# alive together, each REWOUND (reset / all / len) at different moments and then advanced alternately.  The oracle
+# is `simulate` extended over rewinds: every handle is a position in the outputs of repeated next() on a fresh
+# instance; next / nextn / for read at the position, reset() / all() / len() put it back to 0 (C04's clause: all()
+# leaves the pattern rewound), copy starts at the position of its source, new at 0.  Classes: PLSystem with bracketed
+# rules (its bracket stack is per-object state), the expressions of engine P, seeded stochastic patterns (their
+# reset() is judged by C04 on the same tree).  Model: Pat/Instances.v (theorems C09_instances_independent /
+# _copy / _new), for PLSystem with Pat/LSystem.v compared inside Coq (pl_check).
+# ==========================================================================================================
+LSYS_BRACKETED = ["N[-N++N]-N", "N[+N]-N", "N[-N][+N]N", "[N]+N[-N]", "N[+N[-N]+N]-N", "N-[N+N]", "N[-N_]+N", "N[+N]", "[-N]N[+N]N", "N+N"]
+INST_REFN = 300
+LSYS_TOK = {"N": "TN", "_": "TRest", "-": "TMinus", "+": "TPlus", "[": "TOpen", "]": "TClose"}
+INST_HEADER = HEADER + "From Isobar Require Import Pat.Instances Pat.LSystem.\n"
+
+
+def simulate_rewinds(ref, ops):
+    """expected observations of a script over several instances / copies, rewinds included"""
+    pos, out = [0], []
+
+    def call(h):
+        if pos[h] >= len(ref):
+            raise CannotJudge("reference run too short")
+        o = ref[pos[h]]
+        pos[h] += 1
+        return o
+
+    def take(h, n):
+        vals = []
+        while n is None or len(vals) < n:
+            o = call(h)
+            if o == "stop":
+                break
+            if "r" in o:
+                raise CannotJudge("exception inside a helper")
+            vals.append(o["y"])
+        return vals
+    for op in ops:
+        k, h = op[0], op[1]
+        if k == "new":
+            pos.append(0); out.append({"y": None})
+        elif k == "copy":
+            pos.append(pos[h]); out.append({"y": None})
+        elif k == "next":
+            out.append(call(h))
+        elif k in ("nextn", "for"):
+            out.append({"y": {"l": take(h, op[2])}})
+        elif k == "reset":
+            pos[h] = 0; out.append({"y": None})
+        elif k == "all":
+            out.append({"y": {"l": take(h, op[2])}}); pos[h] = 0
+        elif k == "len":
+            out.append({"y": len(take(h, None))}); pos[h] = 0
+    return out
+
+
+def inst_script(rng, finite):
+    """instances and copies are created at different moments, rewound at different moments, then advanced alternately"""
+    ops, handles = [], 1
+    upfront = rng.random() < 0.5
+    if upfront:
+        for _ in range(rng.choice([1, 1, 2])):
+            ops.append(("new", 0)); handles += 1
+
+    def rewind(h):
+        k = rng.random()
+        if k < 0.45:
+            return ("reset", h)
+        if k < 0.8 or not finite:
+            return ("all", h, rng.randint(0, 6))
+        return ("len", h) if rng.random() < 0.6 else ("all", h, None)
+    for rnd in range(rng.randint(2, 4)):
+        for _ in range(rng.randint(0, 4)):
+            h = rng.randrange(handles)
+            ops.append(("next", h) if rng.random() < 0.7 else ("nextn", h, rng.randint(0, 4)))
+        if handles < 5:
+            if not upfront and rng.random() < 0.4:
+                ops.append(("new", 0))
+            else:
+                ops.append(("copy", rng.randrange(handles)))
+            handles += 1
+        # rewind one or several handles (not necessarily all), then advance them alternately
+        hs = rng.sample(range(handles), rng.randint(1, handles))
+        for h in hs:
+            if rng.random() < 0.75:
+                ops.append(rewind(h))
+        order = list(range(handles))
+        for _ in range(rng.randint(3, 9)):
+            rng.shuffle(order)
+            for h in order[:rng.randint(2, max(2, handles))]:
+                ops.append(("next", h) if rng.random() < 0.85 else (rng.choice(["nextn", "for"]), h, rng.randint(1, 3)))
+    return ops[:70]
+
+
+def check_instances(run, gen):
+    rng = run.rng
+    thorough = run.tier == "thorough"
+    cases = []
+    for i in range(2400 if thorough else 240):
+        k = i % 10
+        if k < 5:
+            rule, depth, loop = rng.choice(LSYS_BRACKETED), rng.randint(1, 4), rng.random() < 0.3
+            if depth == 4 and rule.count("N") > 3:
+                depth = 3
+            c = {"cls": "PLSystem", "src": "iso.PLSystem(%r, %d, %r)" % (rule, depth, loop), "finite": True, "lsys": (rule, depth, loop)}
+        elif k < 8:
+            e = gen.gen(rng.choice([0, 1, 1, 2]), rng.random() < 0.7)
+            c = {"cls": root_cls(e), "src": to_source(e), "finite": gen.known_finite(e), "expr": e}
+        else:
+            c = {"cls": "seeded", "src": _fin_input(rng), "finite": True}
+        c.update({"script": [list(o) for o in inst_script(rng, c["finite"])], "track": None, "refn": INST_REFN if c["cls"] == "PLSystem" else 2 * LIB_REFN})
+        cases.append(c)
+    outs = run_lib(run, cases)
+    found, terms, owners, mcases = [], [], [], []
+    for c, out in zip(cases, outs):
+        run.count(); run.dist("stream.instances"); run.dist("instances." + ("PLSystem" if c["cls"] == "PLSystem" else "engine-P" if "expr" in c else "seeded"))
+        if out.get("status"):
+            run.discard("instances: impl-" + out["status"]); continue
+        ref = out.get("ref", [])
+        if len(ref) < 2 or len(out.get("script", ())) < 2 or ref != out.get("ref2"):
+            run.discard("instances: constructor raised / not reproducible"); continue
+        ops = [tuple(o) for o in c["script"]]
+        try:
+            want = simulate_rewinds(ref[1:], ops)
+        except CannotJudge as e:
+            run.discard("instances: " + str(e)); continue
+        got = out["script"][1:]
+        run.cov["oracle_evaluations"] += len(got)
+        run.nontrivial("instances " + c["src"] + repr(ops))
+        for op in ops:
+            run.dist("instances.op." + op[0])
+        dev = None
+        for j, w in enumerate(want):
+            if j >= len(got) or canon_obs(got[j]) != canon_obs(w):
+                dev = j
+                break
+        if dev is not None:
+            found.append((len(ops), len(found), c, out, dev, canon_obs(want[dev]), canon_obs(got[dev]) if dev < len(got) else "nothing"))
+            continue
+        if c["cls"] == "PLSystem":
+            rule, depth, loop = c["lsys"]
+            P = "(%s, %d%%nat, %s)" % (lst([LSYS_TOK.get(ch, "TOther") for ch in rule]), depth, blit(loop))
+            wops = ["(WNew P)"]
+            for o in ops:
+                if o[0] == "new":
+                    wops.append("(WNew P)")
+                elif o[0] == "copy":
+                    wops.append("(WCopy %d)" % o[1])
+                else:
+                    oo = {"next": "ONext", "reset": "OReset", "len": "OLen"}.get(o[0]) or \
+                        ("(ONextN %d)" % o[2] if o[0] in ("nextn", "for") else "(OAll %s)" % ("LMAX" if o[2] is None else "%d" % o[2]))
+                    wops.append("(WOp %d %s)" % (o[1], oo))
+            try:
+                terms.append("(let P : list tok * nat * bool := %s in pl_check LMAX %s %s)" % (P, lst(wops), lst([obs_coq(x) for x in out["script"]])))
+                owners.append((c, out))
+            except Unrepresentable:
+                run.discard("instances model: unrepresentable")
+        elif "expr" in c and ops and all(o[0] != "new" or j < sum(1 for q in ops if q[0] == "new") for j, o in enumerate(ops)):
+            # all further instances are created before anything is advanced: in the tree model a new instance of the same
+            # expression is the initial object, i.e. a copy of handle 0 taken at that moment
+            mc = Case(c["expr"], [("copy", 0) if o[0] == "new" else o for o in ops], "instances")
+            mc.obs = out["script"]
+            mcases.append(mc)
+    seen = set()
+    for _, _, c, out, dev, want, got in sorted(found, key=lambda t: t[:2]):
+        ops = [tuple(o) for o in c["script"]]
+        rewound = any(o[0] in ("reset", "all", "len") for o in ops[:dev])
+        sig = {"kind": "instances", "class": c["cls"] if c["cls"] == "PLSystem" else root_cls(c["expr"]) if "expr" in c else "seeded",
+               "op": ops[dev][0], "after_rewind": rewound}
+        key = json.dumps(sig, sort_keys=True)
+        if key in seen or len(seen) >= 4:
+            continue
+        seen.add(key)
+        lines = lib_snippet(c["src"], []).split("\n")
+        n = 1
+        for o in ops[:dev + 1]:
+            if o[0] == "new":
+                lines.append("p%d = %s" % (n, c["src"])); n += 1
+            elif o[0] == "copy":
+                lines.append("p%d = p%d.copy()" % (n, o[1])); n += 1
+            elif o[0] == "reset":
+                lines.append("p%d.reset()" % o[1])
+            else:
+                lines.append("print(%s)" % op_source(o))
+        run.violation(sig, {
+            "case": {"src": c["src"], "ops": [list(o) for o in ops], "instances": True},
+            "expected": "operation %d (%s on handle %d): %s  [the outputs of repeated next() on a fresh instance, from this handle's own position; "
+                        "reset() / all() / len() rewind the handle they are called on and no other]" % (dev, ops[dev][0], ops[dev][1], want),
+            "observed": got, "observed_outputs": [pretty_obs(o) for o in out["script"]],
+            "reference_next_outputs": [pretty_obs(o) for o in out["ref"][:40]], "python": "\n".join(lines)})
+    # ---- model
+    codes = []
+    chunk = 40
+
+    def one(i0):
+        srcc = INST_HEADER + "\nDefinition results : list nat := [\n" + ";\n".join(terms[i0:i0 + chunk]) + "\n].\nEval vm_compute in results.\n"
+        return parse_nat_list(run.coqc_text("inst%d" % i0, srcc, timeout=300))
+    with ThreadPoolExecutor(max_workers=8) as ex:
+        for r in ex.map(one, range(0, len(terms), chunk)):
+            codes.extend(r)
+    run.cov["instances_lsystem_model_comparisons"] = len(terms)
+    reported = False
+    for (c, out), k in zip(owners, codes):
+        if k == 0:
+            run.cov["traces_validated_against_impl"] += 1
+        elif k == 2:
+            run.discard("instances model: Inexact/OutOfFuel")
+        elif not reported:
+            reported = True
+            run.violation({"kind": "correspondence", "class": "PLSystem", "model": "Pat/LSystem.v"}, {
+                "broken": "correspondence Pat/LSystem.v / Pat/Instances.v vs the implementation on several PLSystem instances and copies: the theorems "
+                          "C09_lsystem_instances_independent / C09_lsystem_sticky no longer speak about this code",
+                "case": {"src": c["src"], "ops": c["script"], "instances": True}, "observed": [pretty_obs(o) for o in out["script"]]}, found_input=False)
+    return mcases
+
+
 model_exprs_by_src = {}
 
 
@@ -816,6 +1034,28 @@ def check(run):
         e = expr(i, rng.random() < 0.7)
         fin = gen.known_finite(e)
         scripts.append(Case(e, gen_script(rng, fin), "script", {"finite": fin}))
+    # helpers at every position of a nesting in which an INNER finite pattern ends the outer one early (a PSequence / a
+    # PConcatenate / a PLoop ... whose own counters say there is more to come): next^k, then len / all / nextn / for
+    for i in range(3000 if thorough else 200):
+        inner = gen.gen(rng.choice([0, 0, 1]), True)
+        items = [gen.num() for _ in range(rng.randint(0, 3))]
+        items.insert(rng.randint(0, len(items)), inner)
+        if rng.random() < 0.25:
+            items.insert(rng.randint(0, len(items)), gen.gen(0, True))
+        e = gen.mark(E("PSequence", items, rng.randint(2, 4)), True)
+        k = rng.random()
+        if k < 0.25:
+            e = gen.mark(E("PLoop", e, rng.randint(1, 2)), True)
+        elif k < 0.4:
+            e = gen.mark(E("PConcatenate", [e, gen.gen(0, True)]), True)
+        elif k < 0.5:
+            e = gen.mark(E("PAdd", e, rng.randint(0, 3)), True)
+        ops = [("next", 0)] * rng.choice([0, 0, 1, 2, 3, 4, 5, 6, 8, 11, 15])
+        if rng.random() < 0.3:
+            ops.append(("copy", 0))
+        h = 1 if ops and ops[-1][0] == "copy" and rng.random() < 0.5 else 0
+        ops.append(rng.choice([("len", h), ("len", h), ("all", h, None), ("nextn", h, 30), ("for", h, 30)]))
+        scripts.append(Case(e, ops, "script", {"finite": True, "early_end": True}))
     refs = {}
     for c in scripts:
         refs.setdefault(to_source(c.expr), Case(c.expr, [("next", 0)] * REFN, "ref"))
@@ -889,6 +1129,9 @@ def check(run):
     # ---- pattern graphs with shared sub-pattern objects: copies and helpers (oracle + Pat/Dag.v)
     check_dags(run, gen)
 
+    # ---- several instances / copies alive together, rewound at different moments
+    inst_cases = check_instances(run, gen)
+
     # ---- helpers and copies against repeated next() on a fresh instance
     def judge_script(c):
         r = refs[to_source(c.expr)] if to_source(c.expr) in refs else None
@@ -902,6 +1145,8 @@ def check(run):
         return None
     for c in scripts:
         run.count(); run.dist("stream.script"); run.dist("root." + root_cls(c.expr))
+        if c.meta.get("early_end"):
+            run.dist("stream.script.inner-pattern-ends-the-outer-early")
         for op in c.ops:
             run.dist("op." + op[0])
         if c.status:
@@ -929,7 +1174,7 @@ def check(run):
             "python": replay_snippet(c.expr, c.ops[:dev["op"] + 1])})
 
     # ---- model
-    allc = [c for c in sticky + scripts if not (stale and any(isinstance(n, E) and n.cls in stale for _, n in nodes(c.expr)))]
+    allc = [c for c in sticky + scripts + inst_cases if not (stale and any(isinstance(n, E) and n.cls in stale for _, n in nodes(c.expr)))]
     run_model(run, allc)
     for c in allc:
         if c.verdict == "discard":
@@ -956,6 +1201,26 @@ def check(run):
 
 def replay(run, doc):
     case = doc.get("case", {})
+    if case.get("instances"):
+        lib_classes(run)
+        c = {"cls": "?", "src": case["src"], "finite": True, "script": case["ops"], "track": None, "refn": INST_REFN}
+        out = run_lib(run, [c], shards=1)[0]
+        print("source:   ", case["src"])
+        print("next():   ", [pretty_obs(o) for o in out.get("ref", [])][:40])
+        print("script:   ", [pretty_obs(o) for o in out.get("script", [])])
+        try:
+            want = simulate_rewinds(out["ref"][1:], [tuple(o) for o in case["ops"]])
+        except CannotJudge as e:
+            print("replay: cannot judge (%s)" % e)
+            return 2
+        got = out["script"][1:]
+        for j, w in enumerate(want):
+            if j >= len(got) or canon_obs(got[j]) != canon_obs(w):
+                print("REPLAY-FAILS: operation %d %r: expected %s, observed %s" % (j, case["ops"][j], canon_obs(w), canon_obs(got[j]) if j < len(got) else "nothing"))
+                print("VIOLATION property=C09 replay=(replayed)")
+                return 1
+        print("replay: the property holds on this case")
+        return 0
     if "src" in case:
         lib_classes(run)
         c = {"cls": doc.get("signature", {}).get("class", "?"), "src": case["src"], "finite": True,
